@@ -214,6 +214,8 @@ type World struct {
 	RefreshDead  bool
 	TickUnread   []map[int]bool // per TICK: Seq of commands whose reply the proxy had not completely read yet
 	Topo         []NodeSpec     // current topology as last injected (nil: Sc.Nodes)
+	LastFd       int            // descriptor and readiness mask of the event handed to the proxy most recently
+	LastMask     uint32
 }
 
 type evKind int
@@ -708,7 +710,8 @@ func (w *World) wait() (fd int, mask uint32, n int, stop bool) {
 					bc.outbox = bc.outbox[1:]
 				}
 			}
-			return bc.Sock.Fd, vsys.ReadyMask(bc.Sock.Fd), 1, false
+			w.LastFd, w.LastMask = bc.Sock.Fd, vsys.ReadyMask(bc.Sock.Fd)
+			return bc.Sock.Fd, w.LastMask, 1, false
 		case evClient:
 			c := w.Clients[ev.idx]
 			if len(c.Sock.Rx) == 0 && c.chunkReady(w) {
@@ -725,7 +728,8 @@ func (w *World) wait() (fd int, mask uint32, n int, stop bool) {
 					top()
 				}
 			}
-			return c.Sock.Fd, vsys.ReadyMask(c.Sock.Fd), 1, false
+			w.LastFd, w.LastMask = c.Sock.Fd, vsys.ReadyMask(c.Sock.Fd)
+			return c.Sock.Fd, w.LastMask, 1, false
 		case evAccept:
 			w.Ln.Pending[0].Name = w.Ln.Pending[0].Name // accepted in Accept()
 			for _, c := range w.Clients {
@@ -737,7 +741,8 @@ func (w *World) wait() (fd int, mask uint32, n int, stop bool) {
 		case evWritable:
 			s := vsys.Lookup(ev.idx)
 			s.Unwritable = false
-			return s.Fd, vsys.ReadyMask(s.Fd), 1, false
+			w.LastFd, w.LastMask = s.Fd, vsys.ReadyMask(s.Fd)
+			return s.Fd, w.LastMask, 1, false
 		case evFault:
 			f := w.Sc.Faults[ev.idx]
 			w.faultUsed[ev.idx] = true
